@@ -10,6 +10,7 @@
 package main
 
 import (
+	"bytes"
 	"encoding/hex"
 	"encoding/json"
 	"flag"
@@ -81,6 +82,11 @@ func aggregate(r *robust.Runner, u *robust.Universe, vecs []robust.Vector, cases
 			a.Fams[v.Fam+"/"+v.Lang]++
 			dev, ok := allowedDev(u, v, f.Site)
 			smp := map[string]interface{}{"fam": v.Fam, "lang": v.Lang, "input": robust.Show(c.Bytes()), "hex": c.Hex, "step": f.Step, "msg": f.Msg, "toks": v.Toks}
+			if v.Rep > 0 { // (hundreds of kilobytes: the tokens, the unit and the count say what it is)
+				smp["input"] = robust.Show(c.Bytes()[:200]) + " ..."
+				smp["hex"] = c.Hex[:400] + "..."
+				smp["unit"], smp["rep"], smp["bytes"] = v.Unit, v.Rep, len(c.Bytes())
+			}
 			if ok {
 				a.Dev = dev
 			} else {
@@ -160,6 +166,13 @@ func cmdReplay(args []string) {
 				vh.Die("vector %d names the unknown layout %q", vi, lo)
 			}
 			b := u.Bytes(v.Toks, lo)
+			if v.Rep > 0 {
+				unit := append(u.Bytes(v.Unit, lo), u.Bytes([]string{"", ""}, lo)...) // (the unit and one separator)
+				if len(b) > 0 {
+					b = append(b, u.Bytes([]string{"", ""}, lo)...)
+				}
+				b = append(b, bytes.Repeat(unit, v.Rep)...)
+			}
 			key := v.Lang + "|" + string(b) + "|" + strings.Join(v.Vn, ",") + fmt.Sprint(v.Vd)
 			if seenInput[key] {
 				continue // another token string (or layout) with the same bytes
